@@ -150,7 +150,7 @@ def sycamore_tabulation():
         import cirq
         import cirq_google
 
-        _TAB["t"] = cirq.two_qubit_gate_product_tabulation(cirq.unitary(cirq_google.SYC), 0.1, random_state=11)
+        _TAB["t"] = cirq.two_qubit_gate_product_tabulation(cirq.unitary(cirq_google.SYC), 0.1, random_state=11, allow_missed_points=False)
     return _TAB["t"]
 
 
@@ -369,7 +369,7 @@ def build_compile_circuit(r, g):
 def compile_cases(draw, kinds=None, thorough=False, max_w=3, max_ops=7):
     g = draw(gateset_recipes(kinds, thorough=thorough, allow_req=False))
     unroll = g["k"] in CORE_KINDS
-    gp = g["k"] in ("cz", "sqrt_iswap", "syc", "gcz", "ionq") and draw(st.integers(0, 5)) == 0
+    gp = g["k"] in ("cz", "sqrt_iswap", "syc", "gcz", "ionq", "aria", "forte") and draw(st.integers(0, 5)) == 0
     meas = not (g["k"] == "gcz" and g["eject"])
     only_native = draw(st.integers(0, 7)) == 0
     r = draw(compile_circuits(1, max_w, max_ops, nested=True, ignored=True, measure=meas, phase=gp, only_native=only_native))
